@@ -206,7 +206,16 @@ func GenOpt(t *rapid.T) OptCase {
 			}
 		}
 		if len(l) == 0 {
-			l = []uint16{fil[0]}
+			// a list that is present and empty explicitly lists nothing. It is generated where the
+			// statement is unambiguous about it (options sent unconditionally, and the two plugins
+			// that answer only clients that explicitly list / send something); for the
+			// "only when requested, or when the DHCPv4 list is absent" plugins a zero-length
+			// option 55 is malformed (RFC 2132: minimum length 1) and either reading is defensible
+			switch {
+			case !c.V6 && c.Plugin != "dns" && c.Plugin != "mtu" && c.Plugin != "nbp" && rapid.Bool().Draw(t, "prl-empty"):
+			default:
+				l = []uint16{fil[0]}
+			}
 		}
 		perm := rapid.Permutation(l).Draw(t, "prl-order")
 		c.PRL = perm
